@@ -3,7 +3,8 @@
 (* C06  Compile-time evaluation agrees with run-time evaluation.           *)
 (*                                                                         *)
 (* A *case* is one constant expression of the Sway-mini AST (SwaySem.tla): *)
-(* literals combined by one operator, a cast, or a two-operator chain.     *)
+(* literals combined by one operator, a cast, a two-operator chain, or a   *)
+(* tuple / array of such expressions.                                      *)
 (*                                                                         *)
 (* Three evaluators are specified:                                         *)
 (*   Sem(e)   the run-time meaning (SwaySem.Eval over IntSem): a value or  *)
@@ -113,6 +114,17 @@ ChainCases(t) ==
     \cup { Case("chain", t, Un(Bin(op, Lit(t, a), Lit(t, b))))
         : op \in {"and", "sub"}, a \in ChainOperands(t), b \in ChainOperands(t) }
 
+\* aggregates: a tuple and an array whose elements are operator applications (evaluated left to right)
+AggOps == {"add", "sub", "mul", "div"}
+AggCases(t) ==
+    IF t \notin {"u8", "u64", "u256"} THEN {}
+    ELSE { Case("agg", "(" \o t \o ", " \o t \o ")",
+                [k |-> "tuple", es |-> <<Bin(op, Lit(t, a), Lit(t, b)), Lit(t, a)>>])
+             : op \in AggOps, a \in ChainOperands(t), b \in ChainOperands(t) }
+         \cup { Case("agg", "[" \o t \o "; 2]",
+                [k |-> "array", es |-> <<Bin(op, Lit(t, a), Lit(t, b)), Bin(op, Lit(t, b), Lit(t, a))>>])
+             : op \in AggOps, a \in ChainOperands(t), b \in ChainOperands(t) }
+
 CasesOf(cls, t) ==
     CASE cls = "bin" -> BinCases(t)
       [] cls = "shift" -> ShiftCases(t)
@@ -120,7 +132,8 @@ CasesOf(cls, t) ==
       [] cls = "widen" -> WidenCases(t)
       [] cls = "narrow" -> NarrowCases(t)
       [] cls = "chain" -> ChainCases(t)
-Classes == {"bin", "shift", "not", "widen", "narrow", "chain"}
+      [] cls = "agg" -> AggCases(t)
+Classes == {"bin", "shift", "not", "widen", "narrow", "chain", "agg"}
 
 (***************************************************************************)
 (* Sem: the run-time meaning.  A case uses no functions or variables.      *)
@@ -218,9 +231,10 @@ StdNot(t, a) ==
 \* --- the evaluator on a case expression.  Arguments are evaluated left to right; the first one
 \* that is not a constant decides.  std's conversions (as_uN: asm blocks or __transmute to u256,
 \* which Transmute does not support; try_from: the same, then Option::unwrap) are never evaluable.
-RECURSIVE CEv(_)
+RECURSIVE CEv(_), CEvSeq(_, _, _)
 CEv(e) ==
     CASE e.k = "lit" -> V(e.t, Resize(FromBE(e.b), RepW(e.t)))
+      [] e.k = "tuple" \/ e.k = "array" -> CEvSeq(e.es, 1, <<>>)
       [] e.k = "un" -> LET x == CEv(e.e) IN IF x.k # "val" THEN x ELSE StdNot(x.t, x.r)
       [] e.k = "bin" ->
             LET x == CEv(e.l) IN
@@ -228,11 +242,19 @@ CEv(e) ==
             ELSE LET y == CEv(e.r) IN IF y.k # "val" THEN y ELSE StdBin(e.op, x.t, x.r, y.r)
       [] e.k = "cast" \/ e.k = "trycast" -> LET x == CEv(e.e) IN IF x.k # "val" THEN x ELSE Refuse
 
-\* the observable: what `log(C)` emits (big-endian, the width of the type)
-CEObs(x) ==
-    IF x.k # "val" THEN [k |-> x.k, v |-> <<>>]
-    ELSE IF x.t = "bool" THEN Val(x.r)
-    ELSE Val(ToBE(Resize(x.r, WidthOf(x.t))))
+\* elements of an aggregate constant, left to right; the first one that is not a constant decides
+CEvSeq(es, i, acc) ==
+    IF i > Len(es) THEN V("agg", acc)
+    ELSE LET x == CEv(es[i]) IN IF x.k # "val" THEN x ELSE CEvSeq(es, i + 1, Append(acc, x))
+
+\* the observable: what `log(C)` emits (big-endian, the width of the type; aggregates: the elements in order)
+RECURSIVE CEEnc(_), CEEncSeq(_, _)
+CEEnc(x) ==
+    IF x.t = "agg" THEN CEEncSeq(x.r, 1)
+    ELSE IF x.t = "bool" THEN x.r
+    ELSE ToBE(Resize(x.r, WidthOf(x.t)))
+CEEncSeq(xs, i) == IF i > Len(xs) THEN <<>> ELSE CEEnc(xs[i]) \o CEEncSeq(xs, i + 1)
+CEObs(x) == IF x.k # "val" THEN [k |-> x.k, v |-> <<>>] ELSE Val(CEEnc(x))
 CE(e) == CEObs(CEv(e))
 
 (***************************************************************************)
@@ -328,7 +350,7 @@ NoSubstitution == Done /\ sem.k = "abort" => ce.k = "refuse"
 \* the compiler does not crash
 NoPanic == Done => ce.k # "panic"
 \* the constant the compiler builds is a value of its type
-InRange == Done /\ ce.k = "val" /\ ce.t # "bool" => Fits(ce.r, WidthOf(ce.t))
+InRange == Done /\ ce.k = "val" /\ ce.t \in IntTypes => Fits(ce.r, WidthOf(ce.t))
 \* IR constant folding replaces an instruction only by what the machine would have computed,
 \* and never an instruction that would have panicked
 FoldSound == Done /\ fold.k = "inst" /\ fold.f.k = "val" => (fold.m.ok /\ fold.m.v = fold.f.r)
